@@ -205,14 +205,14 @@ def gen_harness(items, prefix):
         m = it["module"]
         for im in func_imports(m):
             # with -m (several modules in one program) imported functions carry the importing module's prefix
-            cname = (it["modname"] + "_" if it.get("multi", True) else "") + mangle(im["mod"]) + "__" + mangle(im["name"])
+            cname = (it["modname"] + "_" if it.get("multi", True) else "") + (im.get("cident") or mangle(im["mod"]) + "__" + mangle(im["name"]))
             if cname in emitted:
                 continue
             emitted.add(cname)
             ty = m["types"][im["type"]]
             ret = CT[ty["r"][0]] if ty["r"] else "void"
             params = "".join(",%s a%d" % (CT[t], j) for j, t in enumerate(ty["p"]))
-            o.append("%s %s(void* inst%s) { int first_ = 1; hbegin(\"%s\", inst);" % (ret, cname, params, im["name"]))
+            o.append("%s %s(void* inst%s) { int first_ = 1; hbegin(\"%s\", inst);" % (ret, cname, params, im.get("logname", im["name"])))
             for j, t in enumerate(ty["p"]):
                 o.append("  HARG(\"%s\", %s, a%d);" % (t, CT[t], j))
             o.append("  (void)first_; hend();")
